@@ -168,6 +168,8 @@ def run_trading(rnd, S, cfgk, intensity=1.0, script=None, analyser=False, ids=No
             return out
         plan["bars"] += 1
         day = plan["bars"]
+        if reseed_key is not None:
+            plan["fut"], plan["cash_edge_day"] = (), 0      # a resumable (stateless) strategy has no multi-day plan
         if plan["fut"] is None:
             plan["fut"] = (srnd.choice(futs), srnd.choice(["long", "short"])) if (futs and "FUTURE" in context.portfolio.accounts and srnd.random() < 0.6) else ()
             plan["cash_edge_day"] = srnd.randrange(1, 5) if (stocks and "STOCK" in context.portfolio.accounts and srnd.random() < 0.5) else 0
